@@ -38,7 +38,15 @@ PROP = dict(
           "timeval: boundaries + random usecs < 2^63. A Hypothesis driver repeats a sample of all three families (every 37th/7th day, +-2 ms duration windows, "
           "unit boundaries, generated batches) against Python's datetime and fractions.Fraction. Non-trivial: a duration >= 60 s with explicit precision or within 1 ms of a unit boundary "
           "(distinct (usecs, precision)); a timestamp on Feb 28/29, Mar 1, Dec 31, Jan 1, at second 59 or with non-zero microseconds; a size >= 1024; "
-          "a parse_size text with a unit and a fraction; a timeval with both fields non-zero; a timestamp sequence that visits at least two different seconds. Distinct = distinct case encodings (hash)."),
+          "a parse_size text with a unit and a fraction; a timeval with both fields non-zero; a timestamp sequence that visits at least two different seconds. Distinct = distinct case encodings (hash). "
+          "Build configuration of the library (stage c18_ndebug): Time.cc / Strings.cc are compiled translation units, so the harness is linked a second time against library "
+          "objects compiled with -DNDEBUG and runs all six oracles again as duration_nd / time_nd / time_seq_nd / size_nd / parse_size_nd / timeval_nd: the random generators "
+          "(30000 / 30000 / 4000 / 30000 / 10000 / 10000 cases) plus +-60 us of the four unit boundaries and a field grid x 8 precisions, one time of day of every 5th day of the domain "
+          "and every day of 1970 / 2000 / 2100 / 9999, the boundary sizes and every 37th size below 1.1 MiB. "
+          "After main() (stages c18_time and c18_ndebug): a namespace-scope object constructed before the library's statics and an atexit handler registered as the first statement of main() "
+          "repeat format_duration / format_time / format_size / parse_size / usecs_to_timeval+timeval_to_usecs on fixed inputs (7 durations x 4 precisions, 5 timestamps, 12 sizes incl. > 2^34 x both "
+          "include_bytes, 11 size texts, 4 timevals) during static destruction / exit processing and compare with the results the same calls gave inside main() (which the subchecks validate); a mismatch or "
+          "exception is reported as crash:abort:after-main-<function>."),
     assumptions=["subsecond_precision in -1..6; durations <= 2^63 us", "timestamps in years 1970..9999 (UTC)",
                  "the TZ environment variable is changed only by the harness itself, on the single thread that runs cases (setenv + tzset before the call, restored after it; a time_seq case sets it before its thread starts and restores it after the join); the Python stage runs under the environment as found",
                  "sizes that print as '16.00 EB' (= 2^64, not representable in size_t) are checked for a faithful text only and counted as excluded from the parse_size round trip",
